@@ -13,6 +13,7 @@ import (
 
 	"github.com/emersion/go-smtp"
 	"github.com/foxcpp/maddy/framework/exterrors"
+	"github.com/foxcpp/maddy/internal/target/remote"
 )
 
 // Layer is one element of a term (see spec/Errors.tla).
@@ -81,6 +82,16 @@ func Build(t []Layer) (error, error) {
 				se.EnhancedCode = exterrors.EnhancedCode(c.enh)
 			}
 			e = se
+		case "multi":
+			// target/remote: several recipients failed; b = one of them temporarily
+			first := error(&exterrors.SMTPError{Code: 550, EnhancedCode: exterrors.EnhancedCode{5, 1, 1}, Message: msgTab["a"]})
+			if l.B {
+				first = &exterrors.SMTPError{Code: 451, EnhancedCode: exterrors.EnhancedCode{4, 3, 0}, Message: msgTab["a"]}
+			}
+			e = remote.VerifMultipleErrs(map[string]error{
+				"r1@example.org": first,
+				"r2@example.org": &exterrors.SMTPError{Code: 550, EnhancedCode: exterrors.EnhancedCode{5, 1, 1}, Message: msgTab["a"]},
+			})
 		case "smtph":
 			if leaf {
 				return nil, errors.New("smtph needs a cause")
